@@ -52,8 +52,9 @@ EVENTS = {
     "en25": ("s5f3", (True, 25)), "dis25": ("s5f3", (False, 25)), "en26": ("s5f3", (True, 26)), "en99": ("s5f3", (True, 99)),
     "set25": ("alarm", ("set", 25)), "clear25": ("alarm", ("clear", 25)), "set26": ("alarm", ("set", 26)), "clear26": ("alarm", ("clear", 26)),
     "sv_toggle": ("sv", None),
+    "set25_noack": ("alarm", ("set", 25, "noack")), "clear25_noack": ("alarm", ("clear", 25, "noack")),
 }
-ALPHABET_QUICK = ["ec20_7", "en25", "set25", "ec20_11", "ec20_4_then_bad", "clear25", "ec2_025", "sv_toggle", "dis25", "ec20_3_ec2_1",
+ALPHABET_QUICK = ["ec20_7", "en25", "set25", "set25_noack", "ec20_11", "ec20_4_then_bad", "clear25", "ec2_025", "sv_toggle", "dis25", "ec20_3_ec2_1",
                   "bad_then_ec2_0", "ec20_2_unknown", "set26", "ec20_0", "ec20_10", "ec20_m1", "ec2_15", "ec2_m1"]
 ALPHABET_FULL = list(EVENTS)
 
@@ -179,7 +180,8 @@ class Harness:
                 elif ack == 0:
                     self.v("S5F3-unknown-alarm-acknowledged")
         elif kind == "alarm":
-            op, alid = arg
+            op, alid = arg[0], arg[1]
+            noack = len(arg) > 2
             fn = h.set_alarm if op == "set" else h.clear_alarm
             holder = {"done": False, "error": None}
 
@@ -196,8 +198,17 @@ class Harness:
                 self.s.settle()
                 new = self.ep.pump()
                 frames += new
+                if noack:
+                    # the host never answers S5F1: the call must still finish (reply timeout) with the alarm state updated
+                    new = [f for f in new if (f["stream"], f["function"]) != (5, 1)]
                 if not self.ep.auto_reply(new):
                     break
+            if noack:
+                for _ in range(4):
+                    if holder["done"]:
+                        break
+                    self.s.advance()
+                    frames += self.ep.pump()
             if not holder["done"] or holder["error"]:
                 self.v(f"alarm-call-failed|{op}", holder=holder)
             reports = [f for f in frames if f["stype"] == 0 and (f["stream"], f["function"]) == (5, 1)]
@@ -237,6 +248,14 @@ class Harness:
                         if want is None:
                             if _item_len(item) != 0:
                                 self.v(f"S1F4-unknown-id-not-empty|ids={ids}", got=repr(item))
+                        elif want[0] == "LIST":
+                            # a list-valued status variable: a list of ids, compared by value (item widths are the library's choice)
+                            try:
+                                got_ids = [x[1][0] for x in item[1]] if item[0] == "L" else None
+                            except Exception:  # noqa: BLE001
+                                got_ids = None
+                            if got_ids != want[1]:
+                                self.v(f"S1F4-list-value|id={i}", got=repr(item)[:200], want=want[1])
                         elif item != want:
                             self.v(f"S1F4-value|id={i}|ids={ids}", got=repr(item), want=repr(want))
             node, _ = self.request(1, 11, e5.enc(("L", [ident(i) for i in ids])))
@@ -309,11 +328,11 @@ class Harness:
         if i == 1002:
             return ("B", bytes([5]))  # ONLINE_REMOTE in this fixture
         if i == 1003:
-            return "skip"
+            return ("LIST", [])  # no collection event is enabled in this fixture
         if i == 1004:
-            return "skip" if True else None
+            return ("LIST", [a for a in (25, 26) if ref.al[a][0]])
         if i == 1005:
-            return "skip"
+            return ("LIST", [a for a in (25, 26) if ref.al[a][1]])
         return ref.sv.get(i)
 
     def canon(self):
